@@ -422,4 +422,37 @@ theorem C09_unanswerable_connect_no_will (b : B) (c : Nat) (f : First) (a : Bool
       rw [Mqtt.Proofs.BrokerRefine.firstFail_accepted _ c req a h]
       exact ⟨rfl, Mqtt.Proofs.BrokerRefine.failed_conns _ c req, Mqtt.Proofs.BrokerRefine.failed_topics _ c req⟩
 
+/-! ### Server.Close -/
+
+/-- `stop()` for a list of connections, one after the other, is the run of their `.close` events -/
+theorem C09_stopAll_is_run (cs : List Nat) : ∀ (b : B),
+    stopAll b cs = ((run b (cs.map Ev.close)).1, ((run b (cs.map Ev.close)).2).flatten) := by
+  induction cs with
+  | nil => intro b; rfl
+  | cons c rest ih =>
+    intro b
+    simp only [stopAll, List.map_cons, run, step, List.flatten_cons]
+    rw [ih (stop b c).1]
+
+open Mqtt.Proofs.BrokerRefine (R okRun specRun AcceptsAll) in
+/-- **Server.Close ends every connection without a DISCONNECT: every will is published.**  The model of
+`Server.Close` (`srvClose`: `stop()` for every live connection in the order of registration) is the run
+of the events `.close c` for those connections, and along it the refinement holds (`run_refines`): from
+related states, the outputs of every one of these ends are accepted by the reference broker's
+`endConn _ c false` - the close of `c` followed by the fan-out of its will to the subscriptions held at
+that moment (connections later in the order and in-process subscribers), nothing if it has none -, and
+the states stay related.  (What reaches another CONNECTION during Close is not observable in the tie:
+every connection is closed on that line; in-process subscribers are.) -/
+theorem C09_server_close_publishes_wills (b : B) (s : Mqtt.Spec.Broker.S) (h : R b s) :
+    let es := (liveIds b).map Ev.close
+    srvClose b = ((run b es).1, ((run b es).2).flatten) ∧
+    R (run b es).1 (specRun s es).1 ∧ AcceptsAll (specRun s es).2 (run b es).2 := by
+  intro es
+  have hok : ∀ (l : List Nat) (b' : B), okRun b' (l.map Ev.close) = true := by
+    intro l
+    induction l with
+    | nil => intro b'; rfl
+    | cons c rest ih => intro b'; simp only [List.map_cons, okRun, Mqtt.Proofs.BrokerRefine.okEv, Bool.true_and]; exact ih _
+  exact ⟨C09_stopAll_is_run (liveIds b) b, Mqtt.Proofs.BrokerRefine.run_refines es b s h (hok _ b)⟩
+
 end Mqtt.Properties.C09
